@@ -81,6 +81,23 @@ fn main() {
             let id = a[2].as_str();
             dispatch!(id, shrink_main, Path::new(&a[3]), Path::new(&a[4]))
         }
+        Some("selfcheck") => {
+            // selfcheck [ID ...] : determinism proof; default = all claimed properties
+            let seed = env_u64("VERIF_SEED", runner::DEFAULT_SEED);
+            let all = ["C01", "C02", "C06", "C07", "C08", "C10", "C11", "C13", "C14", "C15", "C17"];
+            let ids: Vec<String> = if a.len() > 2 { a[2..].to_vec() } else { all.iter().map(|s| s.to_string()).collect() };
+            let mut worst = 0;
+            for id in ids {
+                let cases: u64 = match id.as_str() {
+                    "C10" | "C11" => 48,
+                    "C13" => 400,
+                    _ => 4000,
+                };
+                let c = dispatch!(id.as_str(), selfcheck_main, cases, seed);
+                worst = worst.max(c);
+            }
+            worst
+        }
         Some("replay") => runner::replay_main(Path::new(&a[2])),
         _ => {
             eprintln!("usage: mp4sim check <ID> <quick|thorough> | replay <file>");
